@@ -10,6 +10,7 @@ package weshnet
 // replica's log (driver) and, here, with the state of the other replicas holding the same entries.
 
 import (
+	"github.com/ipfs/go-cid"
 	"berty.tech/go-orbit-db/stores"
 	"github.com/libp2p/go-libp2p/p2p/host/eventbus"
 	"bytes"
@@ -1032,9 +1033,86 @@ func (w *c04world) explore(out *vharness.Out, kind string, rng *rand.Rand, h *c0
 			Replay: map[string]any{"history": h.desc, "writer": like.own},
 		})
 	}
+	if !h.contact {
+		w.runHeadsAlone(out, kind, h, h.devs[0], ranks, ev, q)
+	}
 	for _, d := range h.devs {
 		d.ms.Close()
 		d.r.db.Close()
+	}
+}
+
+// The log of a replica need not be causally closed when the index sees it: the replicator fetches the
+// heads first and walks back to their ancestors in further rounds.  Here every head of the final log
+// arrives ALONE (a one-entry log joined into the replica's log, then the index update, as the store does
+// at the end of a replication round), and everything else afterwards; [src] holds the final log.  Every
+// step is compared with the model (the index of ANY set of entries); at the end the replica must report
+// what the writer that holds the same entries reports.
+func (w *c04world) runHeadsAlone(out *vharness.Out, kind string, h *c04history, src *c04dev, ranks c04ranks, ev map[string]string, q c04queries) {
+	want := w.observe(src.ms, q)
+	r := w.node.replicaWith(src.r.ss)
+	ms := r.openMeta(h.group)
+	defer func() { ms.Close(); r.db.Close() }()
+	one := 1
+	var snaps []c04snap
+	step := func(l ipfslog.Log, desc string, last bool) bool {
+		if _, err := ms.OpLog().Join(l, -1); err != nil {
+			return false
+		}
+		if err := ms.Index().UpdateIndex(ms.OpLog(), nil); err != nil {
+			return false
+		}
+		snaps = append(snaps, c04snapshot(ms))
+		obs := w.observe(ms, q)
+		ok, note := true, ""
+		if last && obs != want {
+			ok, note = false, fmt.Sprintf("history %v: a replica whose index first saw the heads of the log alone and then the rest reports a different state than the writer holding the same entries: %s", h.desc, c04firstDiff(want, obs))
+		}
+		out.Emit(vharness.Case{
+			Kind: kind + "-heads-alone",
+			Coq:  fmt.Sprintf("CIdx %d %s %s %s %s %s %s", src.own, w.logsCoq(snaps, ranks, ev), vharness.Ns(q.pks), vharness.Ns(q.groups), vharness.Ns(q.devs), vharness.Ns(q.members), obs),
+			Key:  fmt.Sprintf("%v|heads alone|%s", h.desc, desc), Nontrivial: len(snaps[len(snaps)-1]) >= 3, OracleOK: ok, Note: note,
+			Sig:    "replicas holding the same entries report different group state",
+			Replay: map[string]any{"history": h.desc, "delivery": "every head of the final log alone (its ancestors missing), then everything", "step": desc},
+		})
+		return true
+	}
+	opts := &ipfslog.LogOptions{ID: src.ms.OpLog().GetID(), AccessController: src.ms.AccessController(), SortFn: src.ms.SortFn(), IO: src.ms.IO()}
+	for i, hd := range src.ms.OpLog().Heads().Slice() {
+		l, err := ipfslog.NewFromEntryHash(w.ctx, src.ms.IPFS(), src.ms.Identity(), hd.GetHash(), opts, &ipfslog.FetchOptions{Length: &one})
+		if err != nil || !step(l, fmt.Sprintf("head %d alone", i), false) {
+			return
+		}
+	}
+	// the rest: the logs that end at the parents of the heads (joining the full log would add nothing: a join starts
+	// from the other log's heads and stops at entries that are already there)
+	all := -1
+	var parents []string
+	for _, hd := range src.ms.OpLog().Heads().Slice() {
+		for _, n := range hd.GetNext() {
+			parents = append(parents, n.String())
+		}
+	}
+	for i, ph := range parents {
+		c, err := cid.Decode(ph)
+		if err != nil {
+			return
+		}
+		l, err := ipfslog.NewFromEntryHash(w.ctx, src.ms.IPFS(), src.ms.Identity(), c, opts, &ipfslog.FetchOptions{Length: &all})
+		if err != nil {
+			return
+		}
+		// the oracle applies once the replica holds exactly the entries of the writer
+		last := i == len(parents)-1
+		if last {
+			if _, err := ms.OpLog().Join(l, -1); err != nil {
+				return
+			}
+			last = ms.OpLog().Len() == src.ms.OpLog().Len()
+		}
+		if !step(l, fmt.Sprintf("ancestors through parent %d", i), last) {
+			return
+		}
 	}
 }
 
